@@ -4,6 +4,16 @@
 EXTENDS JudgeTs
 VARIABLES c, done
 
+(* the second component of a dual-scope case: the same annotation, resolved in the scope that re-declares the name *)
+Second(ob) == ob.rt.exports[2][2]
+SecondKeys(ob) ==
+  LET p == ObjGet(Second(ob).eff.es, "props") IN IF p.t = "propsopt" THEN {p.es[i][1] : i \in 1..Len(p.es)} ELSE {"<no-props>"}
+DualWhy(ob) ==
+  IF ob.abs.place # "dual_scope" THEN ""
+  ELSE IF Len(ob.rt.exports) < 2 \/ Second(ob).t # "component" THEN "second-call-not-observed"
+  ELSE IF SecondKeys(ob) # PropKeys(ob.abs.type, ob.abs.shadow) THEN "inner-scope-declaration-not-used-for-the-inner-call"
+  ELSE ""
+
 Why(ob, D) ==
   IF ~ob.abs.resolvable THEN
        (IF ob.drv.term.k # "return" THEN "transform:" \o ob.drv.term.k
@@ -20,7 +30,7 @@ Why(ob, D) ==
                           LET r == RequiredOf(ob.abs.type, Env(ob), k)
                               o == ObjGet(PropOptOf(ob, k).es, "required") IN
                           ~(r = "either" \/ (o.t = "bool" /\ o.b = (r = "required")))} IN
-            IF bad # {} THEN "required-flag:" \o (CHOOSE k \in bad : TRUE) ELSE ""
+            IF bad # {} THEN "required-flag:" \o (CHOOSE k \in bad : TRUE) ELSE DualWhy(ob)
 
 ListedDevs == {}
 Init == c \in 1..NObs /\ done = FALSE
